@@ -59,7 +59,8 @@ def values_at(axis, level, n):
 
 def describe(tier):
     th = tier == 'thorough'
-    return {'L': 5 if th else 4, 'Ld': 6 if th else 5, 'bound_AK': 2, 'bound_distinct': 3, 'axes': AXES}
+    return {'L': 5 if th else 4, 'Ld': 6 if th else 5, 'bound_AK': 2, 'bound_distinct': 3, 'axes': AXES,
+            'long_base': 'PEMKACDFGHIK at deviation <= %d' % (2 if th else 1)}
 
 
 def axes_for(n):
@@ -85,7 +86,14 @@ def shards(tier):
                 continue
             sh['seq'] = seq
             out.append(sh)
+    # one long peptide (positions, shift amounts and interval bounds with two digits) at deviation <= 1 / 2
+    for sh in space.dev_shards(axes_for(len(LONG_BASE)), 2 if tier == 'thorough' else 1):
+        sh['seq'] = LONG_BASE
+        out.append(sh)
     return out
+
+
+LONG_BASE = 'PEMKACDFGHIK'
 
 
 def gen(shard, tier):
